@@ -29,6 +29,9 @@ pub struct ParallelHeapIter<'a> {
     stack: Vec<(HeapCellValue, HeapCellValue)>,
     heap: &'a Heap,
     arena: &'a Arena,
+    // pairs of term locations already visited, as byte offsets into the heap: a PStrLoc
+    // cell holds a byte offset while Lis and Str cells hold cell indices, and keys of
+    // different units must not be mistaken for one another.
     tabu_list: IndexSet<(usize, usize), FxBuildHasher>,
 }
 
@@ -170,11 +173,11 @@ impl Iterator for ParallelHeapIter<'_> {
                         (HeapCellValueTag::Lis, l1) => {
                             read_heap_cell!(v2,
                                 (HeapCellValueTag::PStrLoc, l2) => {
-                                    if self.tabu_list.contains(&(l1, l2)) {
+                                    if self.tabu_list.contains(&(heap_index!(l1), l2)) {
                                         continue;
                                     }
 
-                                    self.tabu_list.insert((l1, l2));
+                                    self.tabu_list.insert((heap_index!(l1), l2));
 
                                     // like the action of partial_string_to_stack here but the
                                     // ordering of stack pushes is (crucially for comparison
@@ -185,17 +188,17 @@ impl Iterator for ParallelHeapIter<'_> {
                                     self.stack.push((heap_loc_as_cell!(l1), char_as_cell!(c)));
                                 }
                                 (HeapCellValueTag::Lis, l2) => {
-                                    if self.tabu_list.contains(&(l1, l2)) {
+                                    if self.tabu_list.contains(&(heap_index!(l1), heap_index!(l2))) {
                                         continue;
                                     }
 
-                                    self.tabu_list.insert((l1, l2));
+                                    self.tabu_list.insert((heap_index!(l1), heap_index!(l2)));
 
                                     self.stack.push((self.heap[l1 + 1], self.heap[l2 + 1]));
                                     self.stack.push((self.heap[l1], self.heap[l2]));
                                 }
                                 (HeapCellValueTag::Str, s2) => {
-                                    if self.tabu_list.contains(&(l1, s2)) {
+                                    if self.tabu_list.contains(&(heap_index!(l1), heap_index!(s2))) {
                                         continue;
                                     }
 
@@ -204,7 +207,7 @@ impl Iterator for ParallelHeapIter<'_> {
 
                                     some_or_return!(self.parallel_cmp((2, atom!(".")), (a2, n2), v1, v2));
 
-                                    self.tabu_list.insert((l1, s2));
+                                    self.tabu_list.insert((heap_index!(l1), heap_index!(s2)));
 
                                     self.stack.push((self.heap[l1 + 1], self.heap[s2 + 2]));
                                     self.stack.push((self.heap[l1], self.heap[s2 + 1]));
@@ -238,11 +241,11 @@ impl Iterator for ParallelHeapIter<'_> {
                                     }
                                 }
                                 (HeapCellValueTag::Lis, l2) => {
-                                    if self.tabu_list.contains(&(l1, l2)) {
+                                    if self.tabu_list.contains(&(l1, heap_index!(l2))) {
                                         continue;
                                     }
 
-                                    self.tabu_list.insert((l1, l2));
+                                    self.tabu_list.insert((l1, heap_index!(l2)));
 
                                     let (c, succ_cell) = self.heap.last_str_char_and_tail(l1);
 
@@ -250,11 +253,11 @@ impl Iterator for ParallelHeapIter<'_> {
                                     self.stack.push((char_as_cell!(c), heap_loc_as_cell!(l2)));
                                 }
                                 (HeapCellValueTag::Str, s2) => {
-                                    if self.tabu_list.contains(&(l1, s2)) {
+                                    if self.tabu_list.contains(&(l1, heap_index!(s2))) {
                                         continue;
                                     }
 
-                                    self.tabu_list.insert((l1, s2));
+                                    self.tabu_list.insert((l1, heap_index!(s2)));
 
                                     let (n2, a2) = cell_as_atom_cell!(self.heap[s2])
                                         .get_name_and_arity();
@@ -274,7 +277,7 @@ impl Iterator for ParallelHeapIter<'_> {
                         (HeapCellValueTag::Str, s1) => {
                             read_heap_cell!(v2,
                                 (HeapCellValueTag::Str, s2) => {
-                                    if self.tabu_list.contains(&(s1, s2)) {
+                                    if self.tabu_list.contains(&(heap_index!(s1), heap_index!(s2))) {
                                         continue;
                                     }
 
@@ -286,14 +289,14 @@ impl Iterator for ParallelHeapIter<'_> {
 
                                     some_or_return!(self.parallel_cmp((a1, n1), (a2, n2), v1, v2));
 
-                                    self.tabu_list.insert((s1, s2));
+                                    self.tabu_list.insert((heap_index!(s1), heap_index!(s2)));
 
                                     for idx in (1 .. a1+1).rev() {
                                         self.stack.push((self.heap[s1+idx], self.heap[s2+idx]));
                                     }
                                 }
                                 (HeapCellValueTag::Lis, l2) => {
-                                    if self.tabu_list.contains(&(s1, l2)) {
+                                    if self.tabu_list.contains(&(heap_index!(s1), heap_index!(l2))) {
                                         continue;
                                     }
 
@@ -307,7 +310,7 @@ impl Iterator for ParallelHeapIter<'_> {
                                     self.stack.push((self.heap[s1+2], self.heap[l2+1]));
                                 }
                                 (HeapCellValueTag::PStrLoc, l2) => {
-                                    if self.tabu_list.contains(&(s1, l2)) {
+                                    if self.tabu_list.contains(&(heap_index!(s1), l2)) {
                                         continue;
                                     }
 
@@ -316,7 +319,7 @@ impl Iterator for ParallelHeapIter<'_> {
 
                                     some_or_return!(self.parallel_cmp((a1, n1), (2, atom!(".")), v1, v2));
 
-                                    self.tabu_list.insert((s1, l2));
+                                    self.tabu_list.insert((heap_index!(s1), l2));
 
                                     let (c, succ_cell) = self.heap.last_str_char_and_tail(l2);
 
